@@ -13,6 +13,9 @@ LEVEL = "other"
 
 MODEL_CLASSES = ("gm2calc::MSSMNoFV_onshell", "gm2calc::THDM")
 FORCE_RX = re.compile(r"^(do_force_output\(\)|config\.force_output)$")
+# the flag each model class documents for force output (MSSM: setter do_force_output(bool);
+# THDM: thdm::Config::force_output handed to the constructor)
+FORCE_FLAG = {"gm2calc::MSSMNoFV_onshell": "do_force_output()", "gm2calc::THDM": "config.force_output"}
 
 # V1: throws of the model classes that are deliberately not force-able (reason each)
 NOT_FORCEABLE = {
@@ -22,36 +25,141 @@ NOT_FORCEABLE = {
 
 # V2: documented rejection conditions -> (function regex, regex on the rendered defect condition, class)
 DOCUMENTED = [
-    ("MW >= MZ", r"MSSMNoFV_onshell::check_input$", r"^\(get_MZ\(\) <= get_MW\(\)\)$", "EInvalidInput"),
-    ("MW = 0", r"MSSMNoFV_onshell::check_input$", r"^is_zero\(get_MW\(\), eps\)$", "EInvalidInput"),
-    ("MZ = 0", r"MSSMNoFV_onshell::check_input$", r"^is_zero\(get_MZ\(\), eps\)$", "EInvalidInput"),
-    ("muon mass = 0", r"MSSMNoFV_onshell::check_input$", r"^is_zero\(get_MM\(\), eps\)$", "EInvalidInput"),
-    ("mu = 0", r"MSSMNoFV_onshell::check_input$", r"^is_zero\(get_Mu\(\), eps\)$", "EInvalidInput"),
-    ("M1 = 0", r"MSSMNoFV_onshell::check_input$", r"^is_zero\(get_MassB\(\), eps\)$", "EInvalidInput"),
-    ("M2 = 0", r"MSSMNoFV_onshell::check_input$", r"^is_zero\(get_MassWB\(\), eps\)$", "EInvalidInput"),
-    ("tan(beta) = 0", r"MSSMNoFV_onshell::check_input$", r"^is_zero\(get_TB\(\), eps\)$", "EInvalidInput"),
-    ("tan(beta) infinite", r"MSSMNoFV_onshell::check_input$", r"^!\(isfinite\(get_TB\(\)\)\)$", "EInvalidInput"),
-    ("tachyon (MSSM)", r"MSSMNoFV_onshell::check_problems$", r"^get_problems\(\)\.have_problem\(\)$", "EPhysicalProblem"),
-    ("soft mu2 < 0", r"MSSMNoFV_onshell::check_problems$", r"\(get_mu2\(\)\.diagonal\(\)\.minCoeff\(\) < 0\)", "EInvalidInput"),
-    ("soft md2 < 0", r"MSSMNoFV_onshell::check_problems$", r"\(get_md2\(\)\.diagonal\(\)\.minCoeff\(\) < 0\)", "EInvalidInput"),
-    ("soft mq2 < 0", r"MSSMNoFV_onshell::check_problems$", r"\(get_mq2\(\)\.diagonal\(\)\.minCoeff\(\) < 0\)", "EInvalidInput"),
-    ("soft me2 < 0", r"MSSMNoFV_onshell::check_problems$", r"\(get_me2\(\)\.diagonal\(\)\.minCoeff\(\) < 0\)", "EInvalidInput"),
-    ("soft ml2 < 0", r"MSSMNoFV_onshell::check_problems$", r"\(get_ml2\(\)\.diagonal\(\)\.minCoeff\(\) < 0\)", "EInvalidInput"),
-    ("massless lightest chargino", r"MSSMNoFV_onshell::check_problems$", r"^is_zero\(get_MCha\(0\), eps\)$", "EInvalidInput"),
-    ("THDM gauge basis tan(beta) <= 0", r"THDM::set_basis$#Gauge_basis", r"^\(basis\.tan_beta <= 0\)$", "EInvalidInput"),
-    ("THDM mass basis tan(beta) <= 0", r"THDM::set_basis$#Mass_basis", r"^\(basis\.tan_beta <= 0\)$", "EInvalidInput"),
-    ("THDM mh > mH", r"THDM::set_basis$#Mass_basis", r"^\(basis\.mH < basis\.mh\)$", "EInvalidInput"),
-    ("THDM |sin(beta-alpha)| > 1", r"THDM::set_basis$#Mass_basis", r"^\(1 < abs\(basis\.sin_beta_minus_alpha\)\)$", "EInvalidInput"),
-    ("THDM mh < 0", r"THDM::set_basis$#Mass_basis", r"^\(basis\.mh < 0\)$", "EInvalidInput"),
-    ("THDM mH < 0", r"THDM::set_basis$#Mass_basis", r"^\(basis\.mH < 0\)$", "EInvalidInput"),
-    ("THDM mA < 0", r"THDM::set_basis$#Mass_basis", r"^\(basis\.mA < 0\)$", "EInvalidInput"),
-    ("THDM mH+ < 0", r"THDM::set_basis$#Mass_basis", r"^\(basis\.mHp < 0\)$", "EInvalidInput"),
-    ("THDM tachyon (gauge basis)", r"THDM::set_basis$#Gauge_basis", r"^get_problems\(\)\.have_problem\(\)$", "EPhysicalProblem"),
-    ("THDM tachyon (mass basis)", r"THDM::set_basis$#Mass_basis", r"^get_problems\(\)\.have_problem\(\)$", "EPhysicalProblem"),
+    ("MW >= MZ", r"MSSMNoFV_onshell::\w+$", r"^\(get_MZ\(\) <= get_MW\(\)\)$", "EInvalidInput"),
+    ("MW = 0", r"MSSMNoFV_onshell::\w+$", r"^is_zero\(get_MW\(\), eps\)$", "EInvalidInput"),
+    ("MZ = 0", r"MSSMNoFV_onshell::\w+$", r"^is_zero\(get_MZ\(\), eps\)$", "EInvalidInput"),
+    ("muon mass = 0", r"MSSMNoFV_onshell::\w+$", r"^is_zero\(get_MM\(\), eps\)$", "EInvalidInput"),
+    ("mu = 0", r"MSSMNoFV_onshell::\w+$", r"^is_zero\(get_Mu\(\), eps\)$", "EInvalidInput"),
+    ("M1 = 0", r"MSSMNoFV_onshell::\w+$", r"^is_zero\(get_MassB\(\), eps\)$", "EInvalidInput"),
+    ("M2 = 0", r"MSSMNoFV_onshell::\w+$", r"^is_zero\(get_MassWB\(\), eps\)$", "EInvalidInput"),
+    ("tan(beta) = 0", r"MSSMNoFV_onshell::\w+$", r"^is_zero\(get_TB\(\), eps\)$", "EInvalidInput"),
+    ("tan(beta) infinite", r"MSSMNoFV_onshell::\w+$", r"^!\(isfinite\(get_TB\(\)\)\)$", "EInvalidInput"),
+    ("tachyon (MSSM)", r"MSSMNoFV_onshell::\w+$#final", r"^get_problems\(\)\.have_problem\(\)$", "EPhysicalProblem"),
+    ("soft mu2 < 0", r"MSSMNoFV_onshell::\w+$#final", r"\(get_mu2\(\)\.diagonal\(\)\.minCoeff\(\) < 0\)", "EInvalidInput"),
+    ("soft md2 < 0", r"MSSMNoFV_onshell::\w+$#final", r"\(get_md2\(\)\.diagonal\(\)\.minCoeff\(\) < 0\)", "EInvalidInput"),
+    ("soft mq2 < 0", r"MSSMNoFV_onshell::\w+$#final", r"\(get_mq2\(\)\.diagonal\(\)\.minCoeff\(\) < 0\)", "EInvalidInput"),
+    ("soft me2 < 0", r"MSSMNoFV_onshell::\w+$#final", r"\(get_me2\(\)\.diagonal\(\)\.minCoeff\(\) < 0\)", "EInvalidInput"),
+    ("soft ml2 < 0", r"MSSMNoFV_onshell::\w+$#final", r"\(get_ml2\(\)\.diagonal\(\)\.minCoeff\(\) < 0\)", "EInvalidInput"),
+    ("massless lightest chargino", r"MSSMNoFV_onshell::\w+$#final", r"^is_zero\(get_MCha\(0\), eps\)$", "EInvalidInput"),
+    ("THDM gauge basis tan(beta) <= 0", r"gm2calc::THDM::\w+$#Gauge_basis", r"^\(basis\.tan_beta <= 0\)$", "EInvalidInput"),
+    ("THDM mass basis tan(beta) <= 0", r"gm2calc::THDM::\w+$#Mass_basis", r"^\(basis\.tan_beta <= 0\)$", "EInvalidInput"),
+    ("THDM mh > mH", r"gm2calc::THDM::\w+$#Mass_basis", r"^\(basis\.mH < basis\.mh\)$", "EInvalidInput"),
+    ("THDM |sin(beta-alpha)| > 1", r"gm2calc::THDM::\w+$#Mass_basis", r"^\(1 < abs\(basis\.sin_beta_minus_alpha\)\)$", "EInvalidInput"),
+    ("THDM mh < 0", r"gm2calc::THDM::\w+$#Mass_basis", r"^\(basis\.mh < 0\)$", "EInvalidInput"),
+    ("THDM mH < 0", r"gm2calc::THDM::\w+$#Mass_basis", r"^\(basis\.mH < 0\)$", "EInvalidInput"),
+    ("THDM mA < 0", r"gm2calc::THDM::\w+$#Mass_basis", r"^\(basis\.mA < 0\)$", "EInvalidInput"),
+    ("THDM mH+ < 0", r"gm2calc::THDM::\w+$#Mass_basis", r"^\(basis\.mHp < 0\)$", "EInvalidInput"),
+    ("THDM tachyon (gauge basis)", r"gm2calc::THDM::\w+$#Gauge_basis", r"^get_problems\(\)\.have_problem\(\)$", "EPhysicalProblem"),
+    ("THDM tachyon (mass basis)", r"gm2calc::THDM::\w+$#Mass_basis", r"^get_problems\(\)\.have_problem\(\)$", "EPhysicalProblem"),
     ("THDM undecidable basis", r"THDM_reader::operator\(\)$", r"mass_basis\.mh == 0.*gauge_basis\.lambda", "EInvalidInput"),
     ("THDM invalid Yukawa type", r"thdm::int_to_cpp_yukawa_type$", r".*", "ESetupError"),
     ("HMIX scale missing", r"GM2_slha_io::fill_scale$", r"^is_zero\(read_scale\(\"HMIX\"\)", "EInvalidInput"),
 ]
+
+
+class FieldFlow:
+    """transitive field read/write sets of statements (through repo callees)"""
+
+    def __init__(self, F):
+        self.F = F
+        self._w = {}
+        self._r = {}
+
+    def stmt_closure(self, stmt):
+        roots = [n["mg"] for n in walk(stmt) if is_call(n) and n.get("mg") in self.F.functions]
+        return self.F.closure(roots)
+
+    @staticmethod
+    def _lhs_fields(e):
+        out = set()
+        e = strip_all(e)
+        while e is not None:
+            k = e.get("k")
+            if k == "MemberExpr":
+                if e.get("mk") == "Field":
+                    out.add(e["n"])
+                e = strip_all(e["c"][0]) if e.get("c") else None
+            elif k == "CXXOperatorCallExpr" and e.get("op") in ("()", "[]"):
+                e = strip_all(e["c"][1])
+            elif k in ("CXXMemberCallExpr",):
+                o = call_object(e)
+                # accessor returning a reference to a field: treated through the callee's returned field
+                out.add("call:" + (e.get("mg") or ""))
+                e = strip_all(o) if o is not None else None
+            elif k == "ArraySubscriptExpr":
+                e = strip_all(e["c"][0])
+            else:
+                e = None
+        return out
+
+    def direct_writes(self, root):
+        out = set()
+        for n in walk(root):
+            k = n.get("k")
+            if k in ("BinaryOperator", "CompoundAssignOperator") and n.get("op") in ("=", "+=", "-=", "*=", "/="):
+                out |= self._lhs_fields(n["c"][0])
+            elif k == "CXXOperatorCallExpr" and n.get("op") in ("=", "+=", "-=", "*=", "/=", "<<"):
+                out |= self._lhs_fields(n["c"][1])
+            elif k == "UnaryOperator" and n.get("op") in ("++", "--"):
+                out |= self._lhs_fields(n["c"][0])
+            if is_call(n):
+                # non-const member call on a field (setZero, swap, ...) or field passed by mutable reference
+                if k == "CXXMemberCallExpr" and not n.get("cm"):
+                    o = call_object(n)
+                    if o is not None:
+                        out |= {x for x in self._lhs_fields(o) if not x.startswith("call:")}
+                for a in call_args(n) if k != "CXXOperatorCallExpr" else []:
+                    if a.get("lv") and not (a.get("t") or "").startswith("const ") and a.get("k") in (
+                            "MemberExpr", "DeclRefExpr", "CXXOperatorCallExpr"):
+                        out |= {x for x in self._lhs_fields(a) if not x.startswith("call:")}
+        # resolve accessor calls returning references to fields
+        res = set()
+        for x in out:
+            if x.startswith("call:"):
+                g = self.F.functions.get(x[5:])
+                if g is not None:
+                    for n in walk(g["body"]):
+                        if n.get("k") == "ReturnStmt" and n.get("c"):
+                            res |= {y for y in self._lhs_fields(n["c"][0]) if not y.startswith("call:")}
+            else:
+                res.add(x)
+        return res
+
+    def writes(self, stmt):
+        out = set(self.direct_writes(stmt))
+        for k in self.stmt_closure(stmt):
+            if k not in self._w:
+                g = self.F.functions[k]
+                w = self.direct_writes(g["body"])
+                for ini in g.get("inits", ()):
+                    if "member" in ini:
+                        w.add(ini["member"])
+                self._w[k] = w
+            out |= self._w[k]
+        return out
+
+    def reads(self, expr):
+        out = set()
+        for n in walk(expr):
+            if n.get("k") == "MemberExpr" and n.get("mk") == "Field":
+                out.add(n["n"])
+        for k in self.stmt_closure(expr):
+            if k not in self._r:
+                self._r[k] = {n["n"] for n in walk(self.F.functions[k]["body"])
+                              if n.get("k") == "MemberExpr" and n.get("mk") == "Field"}
+            out |= self._r[k]
+        return out
+
+
+_SB = {}
+
+
+def _reached_from_set_basis(F, f, basis):
+    """f is THDM::set_basis(<basis>) itself or lies in its call closure"""
+    if basis not in _SB:
+        roots = [g["mg"] for g in F.fns("gm2calc::THDM::set_basis") if basis in (g["params"][0]["t"] or "")]
+        _SB[basis] = F.closure(roots)
+    return f["mg"] in _SB[basis]
 
 
 def _throws(f):
@@ -90,14 +198,17 @@ def run(F, R, tier, M=None):
                 continue
             gs = [g for g in S.guards(t) if g[0] != "switch"]
             force_g = None
+            force_txt = None
             defect = []
             for cond, pol in gs:
                 txt = Rr.r(cond)
                 m = re.match(r"^!\((.*)\)$", txt)
                 if FORCE_RX.match(txt) and pol is False:
                     force_g = (cond, pol)
+                    force_txt = txt
                 elif m and FORCE_RX.match(m.group(1)) and pol is True:
                     force_g = (cond, pol)
+                    force_txt = m.group(1)
                 else:
                     defect.append(("" if pol else "NOT ") + txt)
             dtxt = " && ".join(defect)
@@ -109,6 +220,10 @@ def run(F, R, tier, M=None):
                 else:
                     R.fail("V1", inst, F.loc(f, t), "rejection is not conditional on the force-output flag",
                            key="V1|%s|%s|unconditional" % (f["name"], dtxt[:80]))
+                continue
+            if force_txt != FORCE_FLAG[cls]:
+                R.fail("V1", inst, F.loc(f, t), "the throw is guarded by `%s`, but %s documents `%s` as its force-output "
+                       "switch" % (force_txt, cls, FORCE_FLAG[cls]), key="V1|%s|%s|flag" % (f["name"], dtxt[:80]))
                 continue
             # forced branch: find the IfStmt of the force guard
             ifs = S.parent(force_g[0])
@@ -157,13 +272,17 @@ def run(F, R, tier, M=None):
             ptypes = "#" + ",".join((p["t"] or "").split("::")[-1].replace(" &", "").replace("const ", "")
                                     for p in f["params"])
             allsites.append((f, t, _unq(t["tt"]), conds, ptypes))
+    doc_sites = {}
     for label, frx, crx, cls in DOCUMENTED:
         fr, _, pfilter = frx.partition("#")
+        final = pfilter == "final"
+        if final:
+            pfilter = ""
         hits = []
         for f, t, ty, conds, ptypes in allsites:
             if not re.search(fr, f["name"]):
                 continue
-            if pfilter and pfilter not in ptypes:
+            if pfilter and not _reached_from_set_basis(F, f, pfilter):
                 continue
             pos = [c for c, pol in conds if pol]
             neg = [c for c, pol in conds if not pol]
@@ -177,33 +296,68 @@ def run(F, R, tier, M=None):
         f, t, ty = hits[0]
         R.check("V2", ty == "gm2calc::" + cls, "%s -> %s" % (label, ty.split("::")[-1]), F.loc(f, t),
                 "documented class is %s" % cls, key="V2|%s|class" % label)
-    # reachability of the checking functions from the API
-    R.rule("V2r", "the functions holding the rejection sites are called on every path of the public "
-                  "construction/calculation entry points", 4)
-    for entry, must in (("gm2calc::MSSMNoFV_onshell::calculate_masses", ["check_input", "check_problems"]),
-                        ("gm2calc::MSSMNoFV_onshell::convert_to_onshell", ["check_input", "check_problems"]),
-                        ("gm2calc::THDM::THDM", ["set_basis"])):
-        for f in F.fns(entry):
-            if entry.endswith("THDM::THDM") and not f["params"]:
+        doc_sites[label] = (hits, final, crx)
+    # reachability and ordering of the rejection sites in the public entry points
+    R.rule("V2r", "each MSSM rejection site is reached by an unconditional top-level statement of every public "
+                  "spectrum entry point; the final-spectrum conditions (tachyon, soft m^2, chargino) are tested "
+                  "after the last statement that can write the quantities they read", 30)
+    FW = FieldFlow(F)
+    entries = [f for f in F.fns("gm2calc::MSSMNoFV_onshell::calculate_masses")] + \
+        [f for f in F.fns("gm2calc::MSSMNoFV_onshell::convert_to_onshell") if f["params"]]
+    for label, (hits, final, crx) in sorted(doc_sites.items()):
+        if not any(h[0]["name"].startswith("gm2calc::MSSMNoFV_onshell::") for h in hits):
+            continue
+        site_funcs = {h[0]["mg"] for h in hits}
+        for e in entries:
+            top = e["body"].get("c", [])
+            idx_check = None
+            for i, s_ in enumerate(top):
+                if s_.get("k") in ("IfStmt", "ForStmt", "WhileStmt", "SwitchStmt", "CXXTryStmt"):
+                    continue
+                if FW.stmt_closure(s_) & site_funcs:
+                    idx_check = i
+            inst = "%s in %s(%d params)" % (label, e["name"].split("::")[-1], len(e["params"]))
+            if idx_check is None:
+                R.fail("V2r", inst, F.loc(e), "no unconditional top-level statement of the entry point reaches the "
+                       "rejection site", key="V2r|%s|%s|reach" % (label, e["name"]))
                 continue
-            for m in must:
-                tl = []
-                roots = f["body"].get("c", [])
-                for s in roots:
-                    for x in walk(s):
-                        if is_call(x) and (x.get("fn") or "").endswith("::" + m):
-                            tl.append(s)
-                            break
-                ok = bool(tl)
-                # the call must be an unconditional top-level statement, not preceded by a return
-                if ok:
-                    s = tl[0]
-                    idx = roots.index(s)
-                    ok = not any(always_exits(p) or (p.get("k") == "IfStmt" and any(
-                        y.get("k") == "ReturnStmt" for y in walk(p))) for p in roots[:idx]) and \
-                        s.get("k") not in ("IfStmt", "ForStmt", "WhileStmt", "SwitchStmt")
-                R.check("V2r", ok, "%s(%d params) calls %s unconditionally" % (entry, len(f["params"]), m), F.loc(f),
-                        "%s no longer calls %s on every path" % (entry, m), key="V2r|%s|%s" % (entry, m))
+            early = [p_ for p_ in top[:idx_check] if any(y.get("k") == "ReturnStmt" for y in walk(p_))]
+            if early:
+                R.fail("V2r", inst, F.loc(e, early[0]), "an early return can bypass the rejection site",
+                       key="V2r|%s|%s|bypass" % (label, e["name"]))
+                continue
+            if not final:
+                R.ok("V2r", inst, F.loc(e, top[idx_check]))
+                continue
+            # fields read by the defect condition
+            reads = set()
+            for f_, t_, ty_ in hits:
+                S_ = Struct(f_)
+                for cond, pol in [g for g in S_.guards(t_) if g[0] != "switch"]:
+                    if re.search(crx, Renderer(f_).r(cond)):
+                        for d in disjuncts(cond):
+                            if re.search(crx, Renderer(f_).r(d)):
+                                reads |= FW.reads(d)
+            if not reads:
+                R.broken("V2r: could not determine the fields read by condition %s" % label)
+            last_write = None
+            for i, s_ in enumerate(top):
+                if FW.writes(s_) & reads:
+                    last_write = i
+            ok = last_write is None or last_write < idx_check
+            R.check("V2r", ok, inst + " after last write of {%s}" % ", ".join(sorted(x.split("::")[-1] for x in reads))[:80],
+                    F.loc(e, top[idx_check]),
+                    "the condition is tested at top-level statement %d but statement %d (line %s) can still "
+                    "modify what it reads" % (idx_check, last_write or -1, top[last_write].get("l") if last_write is not None else "?"),
+                    key="V2r|%s|%s|order" % (label, e["name"]))
+    # THDM: set_basis is called by every constructing entry point
+    for f in F.fns("gm2calc::THDM::THDM"):
+        if not f["params"]:
+            continue
+        ok = any(is_call(x) and (x.get("fn") or "").endswith("::set_basis") for s_ in f["body"].get("c", [])
+                 if s_.get("k") not in ("IfStmt", "ForStmt", "WhileStmt", "SwitchStmt") for x in walk(s_))
+        R.check("V2r", ok, "THDM::THDM(%s) calls set_basis unconditionally" % (f["params"][0]["t"] or "")[:40], F.loc(f),
+                "constructor does not validate the basis", key="V2r|THDM::THDM|%s" % (f["params"][0]["t"] or "")[:40])
 
     # ---- V3 ----------------------------------------------------------------------
     R.rule("V3", "exit status: the handler assigns EXIT_FAILURE and nothing later reassigns it; the MSSM run "
